@@ -23,6 +23,10 @@ def _ex(x):
     x = exact(x)
     if isinstance(x, Poly) and x.is_const():
         x = x.const_value()
+    if isinstance(x, Rat) and x.is_poly():
+        x = x.as_poly()
+        if x.is_const():
+            x = x.const_value()
     return x
 
 
@@ -513,7 +517,7 @@ def solve_dense(A, b):
             for c in range(r + 1, n):
                 if not _iszero(A[r][c]):
                     s = s - A[r][c] * X[c][k]
-            X[r][k] = _div(s, A[r][r])
+            X[r][k] = _ex(_div(s, A[r][r]))
     return X if multi else [row[0] for row in X]
 
 
